@@ -167,3 +167,26 @@ func VerifC16ParseDataPoint() {
 	}
 	verifCover("end")
 }
+
+// VerifC16PickleIndependent: Pickle is one package-level function used by every pickle destination, each in its
+// own goroutine. The message it returned for one datapoint must therefore not be altered by pickling another
+// datapoint (which may happen in another destination's goroutine before the first message has been copied into
+// its connection's buffer): the first message, kept by the caller, still holds the frame of the first datapoint
+// after two further calls, and each call's own result is the frame of its own datapoint.
+func VerifC16PickleIndependent() {
+	n1 := verifC16Token("name1", 1+verifChoice("namelen1", 2))
+	n2 := verifC16Token("name2", 1+verifChoice("namelen2", 3))
+	dp1 := &Datapoint{Name: string(n1), Val: 1.5, Time: 1500000001}
+	dp2 := &Datapoint{Name: string(n2), Val: 2.5, Time: 1500000002}
+	m1 := Pickle(dp1)
+	want1 := verifC16Expected(string(n1), 1500000001, 1.5)
+	verifAssert(bytes.Equal(m1, want1), "frame-is-be32-length-then-pickle-of-name-ts-val")
+	m2 := Pickle(dp2)
+	want2 := verifC16Expected(string(n2), 1500000002, 2.5)
+	verifAssert(bytes.Equal(m2, want2), "frame-is-be32-length-then-pickle-of-name-ts-val")
+	m3 := Pickle(dp2)
+	verifAssert(bytes.Equal(m3, want2), "frame-is-be32-length-then-pickle-of-name-ts-val")
+	verifAssert(bytes.Equal(m1, want1), "message-not-altered-by-pickling-another-datapoint")
+	verifAssert(bytes.Equal(m2, want2), "message-not-altered-by-pickling-another-datapoint")
+	verifCover("end")
+}
